@@ -11,6 +11,14 @@ mod shared;
 #[path = "/repo/derive/src/parse.rs"]
 mod parse;
 
+/// derive/src/difference.rs included textually, so that its private helpers that decide which lifetime / const parameters a field type
+/// uses (get_used_lifetimes, get_array_lens; coq/parse/ParseUsed.v) can be called on the parse result
+#[allow(dead_code, unused_imports, unused_variables, unused_mut, unused_macros)]
+mod difference {
+    include!("/repo/derive/src/difference.rs");
+    pub fn used_lifetimes_of(t: &crate::parse::Type) -> Vec<String> { get_used_lifetimes(t) }
+    pub fn array_lens_of(t: &crate::parse::Type) -> Vec<String> { get_array_lens(t) }
+}
 use parse::{Category, ConstValType, Data, Type};
 use proc_macro::{Delimiter, TokenStream, TokenTree};
 use std::io::Write;
@@ -148,6 +156,11 @@ pub fn dump_parse(input: TokenStream) -> TokenStream {
             text.push_str(&format!("ITEM {} PARSED {}\n", sname, struct_text(s)));
             text.push_str(&format!("ITEM {} INTERP {}\n", sname, interp_text(&s.attributes)));
             for (k, f) in s.fields.iter().enumerate() { text.push_str(&format!("ITEM {} FINTERP{} {}\n", sname, k, interp_text(&f.attributes))); }
+            for (k, f) in s.fields.iter().enumerate() {
+                let lts = std::panic::catch_unwind(|| difference::used_lifetimes_of(&f.ty)).map(|v| v.iter().map(|x| esc(x) + " ").collect::<String>()).unwrap_or_else(|_| "PANIC ".to_string());
+                let lens = std::panic::catch_unwind(|| difference::array_lens_of(&f.ty)).map(|v| v.iter().map(|x| format!("[ {}] ", relex(x))).collect::<String>()).unwrap_or_else(|_| "PANIC ".to_string());
+                text.push_str(&format!("ITEM {} FUSED{} lifetimes=[ {}] array_lens=[ {}]\n", sname, k, lts, lens));
+            }
         }
         Ok(_) => text.push_str(&format!("ITEM {} PARSED ENUM\n", sname)),
     }
